@@ -34,3 +34,28 @@ fn vk_sd_reset_fresh<const P: usize, const K: usize>() {
 #[kani::proof] #[kani::unwind(8)] fn vk_sd_reset_fresh_p2() { vk_sd_reset_fresh::<2, 5>() }
 // @harness vk_sd_reset_fresh_p3 props=C04 kind=bounded(period=3,history=7) tier=thorough
 #[kani::proof] #[kani::unwind(10)] fn vk_sd_reset_fresh_p3() { vk_sd_reset_fresh::<3, 7>() }
+
+// derived Clone is a deep copy (any field values): fieldwise bit-equal, distinct buffer allocation, and feeding the clone
+// leaves every slot of the original untouched
+fn vk_sd_clone_deep<const P: usize>() {
+    let a: [f64; P] = kani::any();
+    let index: usize = kani::any();
+    kani::assume(index < P);
+    let count: usize = kani::any();
+    kani::assume(count <= P && (count == P || index == count));
+    let m = StandardDeviation { period: P, index, count, m: kani::any(), m2: kani::any(), deque: Box::new(a) };
+    let mut c = m.clone();
+    assert!(c.period == m.period && c.index == m.index && c.count == m.count);
+    assert!(c.m.to_bits() == m.m.to_bits());
+    assert!(c.m2.to_bits() == m.m2.to_bits());
+    let mut before = [0u64; P];
+    let mut i = 0;
+    while i < P { assert!(c.deque[i].to_bits() == m.deque[i].to_bits()); before[i] = m.deque[i].to_bits(); i += 1; }
+    assert!(c.deque.as_ptr() != m.deque.as_ptr());
+    let _ = c.next(kani::any::<f64>());
+    let mut j = 0;
+    while j < P { assert!(m.deque[j].to_bits() == before[j]); j += 1; }
+    assert!(m.index == index && m.count == count);
+}
+// @harness vk_sd_clone_deep_p2 props=C05 kind=bounded(period=2) tier=quick
+#[kani::proof] #[kani::unwind(6)] fn vk_sd_clone_deep_p2() { vk_sd_clone_deep::<2>() }
